@@ -49,16 +49,25 @@ def unopt : Val → Val
 /-- `rows.Slice(i, j)` -/
 def sliceRows (vs : List Val) (i j : Nat) : List Val := (vs.drop i).take (j - i)
 
-/-- `writeRowsFuncOfOptional`, the bitmap branch (`column_buffer_write.go:305-396`): the null index
+/-- `writeRowsFuncOfOptional`, the bitmap branch (`column_buffer_write.go:360-451`): the null index
 of the rows, then one `writeRows` per run of the scan, null runs at the parent's definition level. -/
-def wrOptional (m : Nat) (inner : WriteRows) : WriteRows := fun r k d vs =>
+def wrOptionalWith (nonzero : Val → Bool) (m : Nat) (inner : WriteRows) : WriteRows := fun r k d vs =>
   if vs.isEmpty then inner r k d []
   else
-    match nullRuns (nullIndex isSome vs) vs.length with
+    match nullRuns (nullIndex nonzero vs) vs.length with
     | .ok runs =>
       joinSegs m (runs.map fun run =>
         inner r k (if run.isNull then d else d + 1) ((sliceRows vs run.i run.j).map unopt))
     | .error _ => List.replicate m []
+
+/-- the null index kernels of `nullIndexFuncOf` (`null.go:50-125`): bit set = the row does not hold
+the zero value of its Go type (nil for maps; for a non-pointer struct the zero struct, `null.go`
+`nullIndexFuncOfStruct`, the predicate `isNullValue` of the reflection paths) -/
+def wrOptional (m : Nat) (inner : WriteRows) : WriteRows := wrOptionalWith isSome m inner
+
+/-- `nullIndexStruct` BEFORE the repair (`bytealg.Broadcast(bits, 0xFF)`): every row of a
+non-pointer struct field with the `optional` tag counted as present. -/
+def wrOptionalAllPresent (m : Nat) (inner : WriteRows) : WriteRows := wrOptionalWith (fun _ => true) m inner
 
 /-- `writeRowsFuncOfPointer` for an optional schema node (`column_buffer_write.go:497-516`). -/
 def wrPointer (m : Nat) (inner : WriteRows) : WriteRows := fun r k d vs =>
@@ -158,6 +167,9 @@ inductive TNode where
   /-- `map[K]V` with the `optional` tag: bitmap branch of `writeRowsFuncOfOptional` (pointer null
   index: the nil map is null, the empty non-nil map is present) over `writeRowsFuncOfMap` -/
   | optMap (kn vn : TNode)
+  /-- a non-pointer struct with the `optional` tag: bitmap branch of `writeRowsFuncOfOptional`
+  (null index of the struct type: the zero struct is null) over `writeRowsFuncOfStruct` -/
+  | optStruct (fs : TFields)
 inductive TFields where
   | nil
   | cons (n : TNode) (fs : TFields)
@@ -184,6 +196,7 @@ def erase : TNode → Node
   | .optList n => .opt (listNode (erase n))
   | .map kn vn => mapNode (erase kn) (erase vn)
   | .optMap kn vn => .opt (mapNode (erase kn) (erase vn))
+  | .optStruct fs => .opt (.group (eraseF fs))
 def eraseF : TFields → Fields
   | .nil => .nil
   | .cons n fs => .cons (erase n) (eraseF fs)
@@ -208,6 +221,8 @@ def tyN : TNode → (dm : Nat) → WriteRows
   | .optMap kn vn, dm =>
     wrOptional (leavesN (erase kn) + leavesN (erase vn))
       (wrMap (leavesN (erase kn)) (leavesN (erase vn)) (tyN kn (dm + 2)) (tyN vn (dm + 2)))
+  | .optStruct fs, dm =>
+    wrOptional (leavesF (eraseF fs)) (fun r k d vs => tyF fs (dm + 1) r k d (vs.map fieldsOf))
 def tyF : TFields → (dm : Nat) → (rep depth dfn : Nat) → List (List Val) → Cols
   | .nil, _ => fun _ _ _ _ => []
   | .cons n fs, dm => fun r k d vss =>
@@ -413,20 +428,47 @@ theorem shredN_listNode (e : Node) (r k d : Nat) (v : Val) :
 
 /-- `f dm` is the `writeRowsFunc` of a node with schema `n` below `dm` optional/repeated ancestors.
 (A) a non-empty batch at the node's full definition level writes the shredded rows, row after row;
-(B) the empty array at a lower definition level writes the absent node. -/
+(B) the empty array at a lower definition level writes the absent node;
+(C) rows holding the zero value of the Go type (`Val.none`: zero scalar, zero struct, nil pointer /
+slice / map) at a lower definition level — what a null run of an enclosing `optional` wrapper hands
+down — write the absent node once per row. -/
 def Sound (n : Node) (f : Nat → WriteRows) : Prop :=
   ∀ dm r k,
     (∀ vs, vs ≠ [] → f dm r k dm vs = joinSegs (leavesN n) (vs.map (shredN n r k dm))) ∧
-    (∀ d, d < dm → f dm r k d [] = absentN n r d)
+    (∀ d, d < dm → f dm r k d [] = absentN n r d) ∧
+    (∀ d, d < dm → ∀ c, f dm r k d (List.replicate (c + 1) Val.none) =
+      joinSegs (leavesN n) (List.replicate (c + 1) (absentN n r d)))
 
 theorem isEmpty_false_of_ne {α : Type} {l : List α} (h : l ≠ []) : l.isEmpty = false := by
   cases l with
   | nil => exact absurd rfl h
   | cons _ _ => rfl
 
+theorem replicate_succ_ne_nil {α : Type} (c : Nat) (a : α) : List.replicate (c + 1) a ≠ [] := by
+  simp [List.replicate_succ]
+
+theorem joinSegs_replicate_one (t : Triple) : ∀ c, joinSegs 1 (List.replicate c [[t]]) = [List.replicate c t]
+  | 0 => by simp [joinSegs]
+  | c + 1 => by
+    simp only [List.replicate_succ, joinSegs_cons, joinSegs_replicate_one t c, zipApp, List.cons_append,
+      List.nil_append]
+
+/-- Per-row placeholders of two sibling fields = placeholders per field. -/
+theorem joinSegs_replicate_append {m1 m2 : Nat} {a b : Cols} (ha : a.length = m1) (hb : b.length = m2)
+    (c : Nat) :
+    joinSegs (m1 + m2) (List.replicate c (a ++ b)) =
+      joinSegs m1 (List.replicate c a) ++ joinSegs m2 (List.replicate c b) := by
+  have h := joinSegs_append_cols (fun _ : Unit => a) (fun _ => b) (List.replicate c ())
+    (fun _ _ => ha) (fun _ _ => hb)
+  simpa only [List.map_replicate] using h
+
+theorem joinSegs_replicate_nil : ∀ c, joinSegs 0 (List.replicate c ([] : Cols)) = []
+  | 0 => rfl
+  | c + 1 => by simp [List.replicate_succ, joinSegs_cons, zipApp]
+
 theorem wrLeaf_sound : Sound .leaf wrLeaf := by
   intro dm r k
-  refine ⟨?_, ?_⟩
+  refine ⟨?_, ?_, ?_⟩
   · intro vs hvs
     have hrhs : vs.map (shredN .leaf r k dm) = vs.map (fun v => [[(⟨payload v, r, dm⟩ : Triple)]]) := by
       apply map_congr_mem
@@ -447,11 +489,16 @@ theorem wrLeaf_sound : Sound .leaf wrLeaf := by
   · intro d hd
     have : dm ≠ 0 := by omega
     simp [wrLeaf, this, absentN]
+  · intro d hd c
+    have hne : d ≠ dm := by omega
+    simp only [leavesN, absentN]
+    rw [joinSegs_replicate_one]
+    simp [wrLeaf, List.replicate_succ, hne]
 
 theorem wrPointer_sound {n : Node} {f : Nat → WriteRows} (h : Sound n f) :
     Sound (.opt n) (fun dm => wrPointer (leavesN n) (f (dm + 1))) := by
   intro dm r k
-  refine ⟨?_, ?_⟩
+  refine ⟨?_, ?_, ?_⟩
   · intro vs hvs
     simp only [wrPointer, isEmpty_false_of_ne hvs, leavesN, Bool.false_eq_true, if_false]
     congr 1
@@ -463,13 +510,17 @@ theorem wrPointer_sound {n : Node} {f : Nat → WriteRows} (h : Sound n f) :
       simp only []
       rw [(h (dm + 1) r k).1 [w] (by simp)]
       exact joinSegs_singleton (shredN_length n r k (dm + 1) w)
-    | prim x => exact (h (dm + 1) r k).2 dm (by omega)
-    | none => exact (h (dm + 1) r k).2 dm (by omega)
-    | struct vs => exact (h (dm + 1) r k).2 dm (by omega)
-    | list ws => exact (h (dm + 1) r k).2 dm (by omega)
+    | prim x => exact (h (dm + 1) r k).2.1 dm (by omega)
+    | none => exact (h (dm + 1) r k).2.1 dm (by omega)
+    | struct vs => exact (h (dm + 1) r k).2.1 dm (by omega)
+    | list ws => exact (h (dm + 1) r k).2.1 dm (by omega)
   · intro d hd
     simp only [wrPointer, List.isEmpty_nil, if_true, absentN]
-    exact (h (dm + 1) r k).2 d (by omega)
+    exact (h (dm + 1) r k).2.1 d (by omega)
+  · intro d hd c
+    simp only [wrPointer, isEmpty_false_of_ne (replicate_succ_ne_nil c _), Bool.false_eq_true, if_false,
+      List.map_replicate, absentN, leavesN]
+    rw [(h (dm + 1) r k).2.1 d (by omega)]
 
 /-- The slice wrapper over a sound element writer, against any `S` that has the shape of
 `shredN (.rpt e)` through the element accessor `get`. -/
@@ -488,7 +539,7 @@ theorem wrSlice_rows {e : Node} {f : Nat → WriteRows} (h : Sound e f) (get : V
   intro v _
   rw [hS]
   cases get v with
-  | nil => exact (h (dm + 1) r (k + 1)).2 dm (by omega)
+  | nil => exact (h (dm + 1) r (k + 1)).2.1 dm (by omega)
   | cons w ws =>
     simp only []
     rw [(h (dm + 1) r (k + 1)).1 [w] (by simp)]
@@ -506,10 +557,24 @@ theorem wrSlice_empty (m : Nat) (get : Val → List Val) (inner : WriteRows) (r 
     wrSlice m get inner r k d [] = inner r k d [] := by
   simp [wrSlice]
 
+/-- The slice wrapper on rows holding nil slices (what `get` reads from the zero value) below the
+node's definition level: one placeholder of the element per row. -/
+theorem wrSlice_zeros {e : Node} {f : Nat → WriteRows} (h : Sound e f) (get : Val → List Val)
+    (hget : get Val.none = []) (dm r k d c : Nat) (hd : d < dm + 1) :
+    wrSlice (leavesN e) get (f (dm + 1)) r k d (List.replicate (c + 1) Val.none) =
+      joinSegs (leavesN e) (List.replicate (c + 1) (absentN e r d)) := by
+  simp only [wrSlice, isEmpty_false_of_ne (replicate_succ_ne_nil c _), Bool.false_eq_true, if_false,
+    List.map_replicate, hget]
+  rw [(h (dm + 1) r (k + 1)).2.1 d hd]
+
+theorem elemsS_none : elemsS Val.none = [] := rfl
+theorem elemsL_none : elemsL Val.none = [] := by simp [elemsL, fieldsOf, hd, elemsS]
+theorem elemsM_none : elemsM Val.none = [] := by simp [elemsM, fieldsOf, hd, elemsS]
+
 theorem wrSlice_sound {e : Node} {f : Nat → WriteRows} (h : Sound e f) :
     Sound (.rpt e) (fun dm => wrSlice (leavesN e) elemsS (f (dm + 1))) := by
   intro dm r k
-  refine ⟨?_, ?_⟩
+  refine ⟨?_, ?_, ?_⟩
   · intro vs hvs
     simp only [leavesN]
     exact wrSlice_rows h elemsS (fun r k d v => shredN (.rpt e) r k d v) (fun r k d v => shredN_rpt e r k d v) dm r k vs hvs
@@ -517,26 +582,39 @@ theorem wrSlice_sound {e : Node} {f : Nat → WriteRows} (h : Sound e f) :
     show wrSlice (leavesN e) elemsS (f (dm + 1)) r k d [] = _
     rw [wrSlice_empty]
     simp only [absentN]
-    exact (h (dm + 1) r k).2 d (by omega)
+    exact (h (dm + 1) r k).2.1 d (by omega)
+  · intro d hd c
+    simp only [leavesN, absentN]
+    exact wrSlice_zeros h elemsS elemsS_none dm r k d c (by omega)
 
 theorem wrList_sound {e : Node} {f : Nat → WriteRows} (h : Sound e f) :
     Sound (listNode e) (fun dm => wrSlice (leavesN e) elemsL (f (dm + 1))) := by
   intro dm r k
-  refine ⟨?_, ?_⟩
+  refine ⟨?_, ?_, ?_⟩
   · intro vs hvs
     rw [leavesN_listNode]
     exact wrSlice_rows h elemsL (fun r k d v => shredN (listNode e) r k d v) (fun r k d v => shredN_listNode e r k d v) dm r k vs hvs
   · intro d hd
     show wrSlice (leavesN e) elemsL (f (dm + 1)) r k d [] = _
     rw [wrSlice_empty, absentN_listNode]
-    exact (h (dm + 1) r k).2 d (by omega)
+    exact (h (dm + 1) r k).2.1 d (by omega)
+  · intro d hd c
+    rw [leavesN_listNode, absentN_listNode]
+    exact wrSlice_zeros h elemsL elemsL_none dm r k d c (by omega)
 
 theorem wrOptList_sound {e : Node} {f : Nat → WriteRows} (h : Sound e f) :
     Sound (.opt (listNode e))
       (fun dm => wrOptionalSlice (leavesN e) (wrSlice (leavesN e) elemsL (f (dm + 2)))) := by
   intro dm r k
   have hl := wrList_sound h
-  refine ⟨?_, ?_⟩
+  have habs : ∀ d, d < dm + 2 →
+      wrSlice (leavesN e) elemsL (f (dm + 2)) r k d [Val.none] = absentN (listNode e) r d := by
+    intro d hd
+    have := wrSlice_zeros h elemsL elemsL_none (dm + 1) r k d 0 hd
+    simp only [Nat.zero_add, List.replicate_one] at this
+    rw [this, absentN_listNode]
+    exact joinSegs_singleton (absentN_length e r d)
+  refine ⟨?_, ?_, ?_⟩
   · intro vs hvs
     simp only [wrOptionalSlice, isEmpty_false_of_ne hvs, leavesN, Bool.false_eq_true, if_false]
     rw [show leavesN (listNode e) = leavesN e from leavesN_listNode e]
@@ -544,10 +622,6 @@ theorem wrOptList_sound {e : Node} {f : Nat → WriteRows} (h : Sound e f) :
     apply map_congr_mem
     intro v _
     rw [shredN_opt]
-    have habs : wrSlice (leavesN e) elemsL (f (dm + 2)) r k dm [Val.none] = absentN (listNode e) r dm := by
-      simp only [wrSlice, List.isEmpty_cons, List.map_cons, List.map_nil, elemsL, fieldsOf, hd, elemsS]
-      rw [(h (dm + 2) r (k + 1)).2 dm (by omega), absentN_listNode]
-      exact joinSegs_singleton (absentN_length e r dm)
     cases v with
     | some w =>
       simp only []
@@ -555,16 +629,20 @@ theorem wrOptList_sound {e : Node} {f : Nat → WriteRows} (h : Sound e f) :
       simp only [] at this
       rw [this, leavesN_listNode]
       exact joinSegs_singleton (by rw [shredN_length, leavesN_listNode])
-    | prim x => exact habs
-    | none => exact habs
-    | struct vs => exact habs
-    | list ws => exact habs
+    | prim x => exact habs dm (by omega)
+    | none => exact habs dm (by omega)
+    | struct vs => exact habs dm (by omega)
+    | list ws => exact habs dm (by omega)
   · intro d hd
     simp only [wrOptionalSlice, List.isEmpty_nil, if_true, absentN]
     rw [wrSlice_empty]
-    have := (h (dm + 2) r k).2 d (by omega)
+    have := (h (dm + 2) r k).2.1 d (by omega)
     rw [this]
     simp [listNode, absentN, absentF]
+  · intro d hd c
+    simp only [wrOptionalSlice, isEmpty_false_of_ne (replicate_succ_ne_nil c _), Bool.false_eq_true,
+      if_false, List.map_replicate, leavesN, absentN]
+    rw [habs d (by omega), leavesN_listNode]
 
 /-! ## the optional non-pointer wrapper: the runs of the bitmap scan write the null pattern -/
 
@@ -586,94 +664,14 @@ theorem sliceRows_length (vs : List Val) {i j : Nat} (h : j ≤ vs.length) :
     (sliceRows vs i j).length = j - i := by
   simp only [sliceRows, List.length_take, List.length_drop]; omega
 
-/-- the triple `shredN (.opt .leaf)` emits for a row -/
-def optLeafTriple (r dm : Nat) : Val → Triple
-  | .some w => ⟨payload w, r, dm + 1⟩
-  | _ => ⟨none, r, dm⟩
-
-theorem shredN_optLeaf (r k dm : Nat) (v : Val) :
-    shredN (.opt .leaf) r k dm v = [[optLeafTriple r dm v]] := by
-  cases v with
-  | some w => cases w <;> simp [shredN, optLeafTriple, payload]
-  | prim x => simp [shredN, absentN, optLeafTriple]
-  | none => simp [shredN, absentN, optLeafTriple]
-  | struct vs => simp [shredN, absentN, optLeafTriple]
-  | list ws => simp [shredN, absentN, optLeafTriple]
-
-theorem chain_write (vs : List Val) (ws : List (BitVec 64)) (r k dm : Nat)
-    (hbits : ∀ p v, vs[p]? = some v → bitAt ws p = isSome v) :
-    ∀ (runs : List Run) (s e : Nat), Chain ws s e runs → e ≤ vs.length →
-      joinSegs 1 (runs.map fun run =>
-        wrLeaf (dm + 1) r k (if run.isNull then dm else dm + 1) ((sliceRows vs run.i run.j).map unopt)) =
-      [(sliceRows vs s e).map (optLeafTriple r dm)]
-  | [], s, e, hc, _ => by
-    simp only [Chain] at hc
-    subst hc
-    simp [joinSegs, sliceRows]
-  | run :: rs, s, e, hc, he => by
-    have hle := chain_le hc
-    simp only [Chain] at hc
-    rcases hc with ⟨hs, hlt, hb, hrest⟩
-    have hle2 := chain_le hrest
-    have ih := chain_write vs ws r k dm hbits rs run.j e hrest he
-    simp only [List.map_cons, joinSegs_cons]
-    rw [ih]
-    have hlen : ((sliceRows vs run.i run.j).map unopt).length = run.j - run.i := by
-      rw [List.length_map, sliceRows_length vs (by omega)]
-    have hrun : wrLeaf (dm + 1) r k (if run.isNull then dm else dm + 1) ((sliceRows vs run.i run.j).map unopt) =
-        [(sliceRows vs run.i run.j).map (optLeafTriple r dm)] := by
-      cases hX : (sliceRows vs run.i run.j).map unopt with
-      | nil => rw [hX] at hlen; simp at hlen; omega
-      | cons x xs =>
-        simp only [wrLeaf]
-        rw [← hX, List.map_map]
-        congr 1
-        apply map_congr_mem
-        intro v hv
-        rcases mem_sliceRows hv with ⟨p, hp1, hp2, hp3⟩
-        have hbit := hb p hp1 hp2
-        rw [hbits p v hp3] at hbit
-        cases hn : run.isNull with
-        | true =>
-          rw [hn] at hbit
-          cases v <;> simp [isSome] at hbit <;> simp [optLeafTriple]
-        | false =>
-          rw [hn] at hbit
-          cases v <;> simp [isSome] at hbit
-          simp [optLeafTriple, unopt]
-    rw [hrun, ← hs]
-    simp only [zipApp]
-    rw [← List.map_append, sliceRows_append vs (by omega) hle2]
-
-theorem wrOptionalLeaf_sound : Sound (.opt .leaf) (fun dm => wrOptional 1 (wrLeaf (dm + 1))) := by
-  intro dm r k
-  refine ⟨?_, ?_⟩
-  · intro vs hvs
-    have hidx := nullIndex_spec isSome vs
-    rcases scan_spec (nullIndex isSome vs) vs.length hidx.2.1 vs.length 0 (Nat.zero_le _) (by omega)
-      with ⟨runs, hruns, hchain, _⟩
-    have hbits : ∀ p v, vs[p]? = some v → bitAt (nullIndex isSome vs) p = isSome v := by
-      intro p v hp
-      rw [hidx.2.2 p, hp]; rfl
-    have hw := chain_write vs (nullIndex isSome vs) r k dm hbits runs 0 vs.length hchain (Nat.le_refl _)
-    simp only [wrOptional, isEmpty_false_of_ne hvs, Bool.false_eq_true, if_false, nullRuns, hruns]
-    rw [hw]
-    have hrhs : vs.map (shredN (.opt .leaf) r k dm) = vs.map (fun v => [[optLeafTriple r dm v]]) :=
-      map_congr_mem (fun v _ => shredN_optLeaf r k dm v)
-    have hone := joinSegs_one_col (fun v => [optLeafTriple r dm v]) vs
-    simp only [leavesN]
-    rw [hrhs, hone]
-    rw [flatMap_singleton]
-    simp [sliceRows]
-  · intro d hd
-    simp [wrOptional, wrLeaf, absentN]
-
 /-! ## structs, and the induction over the Go type -/
 
 def SoundF (fs : Fields) (g : Nat → Nat → Nat → Nat → List (List Val) → Cols) : Prop :=
   ∀ dm r k,
     (∀ vss, vss ≠ [] → g dm r k dm vss = joinSegs (leavesF fs) (vss.map (shredF fs r k dm))) ∧
-    (∀ d, d < dm → g dm r k d [] = absentF fs r d)
+    (∀ d, d < dm → g dm r k d [] = absentF fs r d) ∧
+    (∀ d, d < dm → ∀ c, g dm r k d (List.replicate (c + 1) []) =
+      joinSegs (leavesF fs) (List.replicate (c + 1) (absentF fs r d)))
 
 theorem joinSegs_zero {α : Type} : ∀ (xs : List α), joinSegs 0 (xs.map fun _ => ([] : Cols)) = []
   | [] => rfl
@@ -729,10 +727,14 @@ theorem absentN_mapNode (K V : Node) (r d : Nat) :
     absentN (mapNode K V) r d = absentN K r d ++ absentN V r d := by
   simp [mapNode, pairNode, absentN, absentF]
 
+theorem absentN_pairNode (K V : Node) (r d : Nat) :
+    absentN (pairNode K V) r d = absentN K r d ++ absentN V r d := by
+  simp [pairNode, absentN, absentF]
+
 theorem pair_sound {K V : Node} {fk fv : Nat → WriteRows} (hk : Sound K fk) (hv : Sound V fv) :
     Sound (pairNode K V) (wrPair fk fv) := by
   intro dm r k
-  refine ⟨?_, ?_⟩
+  refine ⟨?_, ?_, ?_⟩
   · intro vs hvs
     have hkn : keysOf vs ≠ [] := map_ne_nil (map_ne_nil hvs)
     have hvn : valsOf vs ≠ [] := map_ne_nil (map_ne_nil (map_ne_nil hvs))
@@ -747,8 +749,16 @@ theorem pair_sound {K V : Node} {fk fv : Nat → WriteRows} (hk : Sound K fk) (h
     simp [keysOf, valsOf, List.map_map, Function.comp_def]
   · intro d hd'
     simp only [wrPair, keysOf, valsOf, List.map_nil]
-    rw [(hk dm r k).2 d hd', (hv dm r k).2 d hd']
+    rw [(hk dm r k).2.1 d hd', (hv dm r k).2.1 d hd']
     simp [pairNode, absentN, absentF]
+  · intro d hd' c
+    have hks : keysOf (List.replicate (c + 1) Val.none) = List.replicate (c + 1) Val.none := by
+      simp [keysOf, List.map_replicate, fieldsOf, hd]
+    have hvs : valsOf (List.replicate (c + 1) Val.none) = List.replicate (c + 1) Val.none := by
+      simp [valsOf, List.map_replicate, fieldsOf, hd]
+    simp only [wrPair]
+    rw [hks, hvs, (hk dm r k).2.2 d hd' c, (hv dm r k).2.2 d hd' c, leavesN_pairNode, absentN_pairNode]
+    exact (joinSegs_replicate_append (absentN_length K r d) (absentN_length V r d) (c + 1)).symm
 
 theorem shredN_mapNode (K V : Node) (r k d : Nat) (v : Val) :
     shredN (mapNode K V) r k d v =
@@ -767,7 +777,7 @@ theorem wrMap_eq_wrSlice (mk mv : Nat) (keyW valW : WriteRows) (r k d : Nat) (vs
 theorem wrMap_sound {K V : Node} {fk fv : Nat → WriteRows} (hk : Sound K fk) (hv : Sound V fv) :
     Sound (mapNode K V) (fun dm => wrMap (leavesN K) (leavesN V) (fk (dm + 1)) (fv (dm + 1))) := by
   intro dm r k
-  refine ⟨?_, ?_⟩
+  refine ⟨?_, ?_, ?_⟩
   · intro vs hvs
     have h := wrSlice_rows (pair_sound hk hv) elemsM (fun r k d v => shredN (mapNode K V) r k d v)
       (fun r k d v => shredN_mapNode K V r k d v) dm r k vs hvs
@@ -778,7 +788,13 @@ theorem wrMap_sound {K V : Node} {fk fv : Nat → WriteRows} (hk : Sound K fk) (
   · intro d hd'
     show wrMap (leavesN K) (leavesN V) (fk (dm + 1)) (fv (dm + 1)) r k d [] = _
     simp only [wrMap, List.isEmpty_nil, if_true]
-    rw [(hk (dm + 1) r k).2 d (by omega), (hv (dm + 1) r k).2 d (by omega), absentN_mapNode]
+    rw [(hk (dm + 1) r k).2.1 d (by omega), (hv (dm + 1) r k).2.1 d (by omega), absentN_mapNode]
+  · intro d hd' c
+    have h := wrSlice_zeros (pair_sound hk hv) elemsM elemsM_none dm r k d c (by omega)
+    rw [leavesN_pairNode, absentN_pairNode] at h
+    show wrMap (leavesN K) (leavesN V) (fk (dm + 1)) (fv (dm + 1)) r k d _ = _
+    rw [leavesN_mapNode, absentN_mapNode, wrMap_eq_wrSlice]
+    exact h
 
 theorem chain_write_gen {n : Node} {f : Nat → WriteRows} (h : Sound n f)
     (hz : ∀ dm r k (vs : List Val), vs ≠ [] → (∀ v ∈ vs, isSome v = false) →
@@ -848,14 +864,73 @@ theorem chain_write_gen {n : Node} {f : Nat → WriteRows} (h : Sound n f)
       simp [leavesN]
     rw [hrun, ← hs, ← joinSegs_append _ _ hys, ← List.map_append, sliceRows_append vs (by omega) hle2]
 
-/-- The bitmap branch of `writeRowsFuncOfOptional` over any sound writer whose null runs (rows
-holding the zero value, at the parent's definition level) write the absent node. -/
-theorem wrOptional_sound {n : Node} {f : Nat → WriteRows} (h : Sound n f)
-    (hz : ∀ dm r k (vs : List Val), vs ≠ [] → (∀ v ∈ vs, isSome v = false) →
-      f (dm + 1) r k dm (vs.map unopt) = joinSegs (leavesN n) (vs.map fun _ => absentN n r dm)) :
+/-- the rows of a null run hold the zero value -/
+theorem map_unopt_of_null {vs : List Val} (h : ∀ v ∈ vs, isSome v = false) :
+    vs.map unopt = List.replicate vs.length Val.none := by
+  apply List.eq_replicate_iff.mpr
+  refine ⟨by simp, ?_⟩
+  intro b hb
+  rcases List.mem_map.mp hb with ⟨v, hv, rfl⟩
+  have := h v hv
+  cases v <;> simp [isSome] at this <;> rfl
+
+/-- A batch of zero values through the bitmap branch below the node's definition level: the null
+index has no bit set, every run of the scan is a null run, and the runs together hand the inner
+writer every row once. -/
+theorem chain_write_zeros (m : Nat) (g : Nat → List Val → Cols) (a : Cols) (d : Nat)
+    (hg : ∀ c, g d (List.replicate (c + 1) Val.none) = joinSegs m (List.replicate (c + 1) a))
+    (ha : a.length = m) (vs : List Val) (hall : ∀ v ∈ vs, isSome v = false) (ws : List (BitVec 64))
+    (hbits : ∀ p, p < vs.length → bitAt ws p = false) :
+    ∀ (runs : List Run) (s e : Nat), Chain ws s e runs → e ≤ vs.length →
+      joinSegs m (runs.map fun run =>
+        g (if run.isNull then d else d + 1) ((sliceRows vs run.i run.j).map unopt)) =
+      joinSegs m (List.replicate (e - s) a)
+  | [], s, e, hc, _ => by
+    simp only [Chain] at hc
+    subst hc
+    simp [joinSegs]
+  | run :: rs, s, e, hc, he => by
+    simp only [Chain] at hc
+    rcases hc with ⟨hs, hlt, hb, hrest⟩
+    have hle2 := chain_le hrest
+    have ih := chain_write_zeros m g a d hg ha vs hall ws hbits rs run.j e hrest he
+    have hnull : run.isNull = true := by
+      have h1 := hb run.i (Nat.le_refl _) hlt
+      rw [hbits run.i (by omega)] at h1
+      cases hn : run.isNull with
+      | true => rfl
+      | false => rw [hn] at h1; simp at h1
+    have hsl : (sliceRows vs run.i run.j).map unopt = List.replicate (run.j - run.i) Val.none := by
+      have hall' : ∀ v ∈ sliceRows vs run.i run.j, isSome v = false := by
+        intro v hv
+        rcases mem_sliceRows hv with ⟨p, _, _, hp⟩
+        exact hall v (List.mem_of_getElem? hp)
+      rw [map_unopt_of_null hall', sliceRows_length vs (by omega)]
+    obtain ⟨c, hc⟩ : ∃ c, run.j - run.i = c + 1 := ⟨run.j - run.i - 1, by omega⟩
+    have hys : ∀ s' ∈ List.replicate (e - run.j) a, s'.length = m := by
+      intro s' hs'
+      rw [(List.mem_replicate.mp hs').2, ha]
+    simp only [List.map_cons, joinSegs_cons]
+    rw [ih, hnull, hsl, hc]
+    simp only [if_true]
+    rw [hg c, ← joinSegs_append _ _ hys, List.replicate_append_replicate]
+    congr 2
+    omega
+
+/-- The bitmap branch of `writeRowsFuncOfOptional` over any sound writer: the null index of the
+rows, the run scan, one call per run — null runs (rows holding the zero value) at the parent's
+definition level. -/
+theorem wrOptional_sound {n : Node} {f : Nat → WriteRows} (h : Sound n f) :
     Sound (.opt n) (fun dm => wrOptional (leavesN n) (f (dm + 1))) := by
   intro dm r k
-  refine ⟨?_, ?_⟩
+  have hz : ∀ dm r k (vs : List Val), vs ≠ [] → (∀ v ∈ vs, isSome v = false) →
+      f (dm + 1) r k dm (vs.map unopt) = joinSegs (leavesN n) (vs.map fun _ => absentN n r dm) := by
+    intro dm r k vs hvs hall
+    obtain ⟨c, hc⟩ : ∃ c, vs.length = c + 1 :=
+      ⟨vs.length - 1, by have := List.length_pos_iff.mpr hvs; omega⟩
+    rw [map_unopt_of_null hall, List.map_const', hc]
+    exact (h (dm + 1) r k).2.2 dm (by omega) c
+  refine ⟨?_, ?_, ?_⟩
   · intro vs hvs
     have hidx := nullIndex_spec isSome vs
     rcases scan_spec (nullIndex isSome vs) vs.length hidx.2.1 vs.length 0 (Nat.zero_le _) (by omega)
@@ -864,34 +939,73 @@ theorem wrOptional_sound {n : Node} {f : Nat → WriteRows} (h : Sound n f)
       intro p v hp
       rw [hidx.2.2 p, hp]; rfl
     have hw := chain_write_gen h hz vs (nullIndex isSome vs) r k dm hbits runs 0 vs.length hchain (Nat.le_refl _)
-    simp only [wrOptional, isEmpty_false_of_ne hvs, Bool.false_eq_true, if_false, nullRuns, hruns]
+    simp only [wrOptional, wrOptionalWith, isEmpty_false_of_ne hvs, Bool.false_eq_true, if_false, nullRuns, hruns]
     rw [hw]
     simp [sliceRows, leavesN]
   · intro d hd'
-    simp only [wrOptional, List.isEmpty_nil, if_true, absentN]
-    exact (h (dm + 1) r k).2 d (by omega)
-
-theorem wrMap_null_runs {K V : Node} {fk fv : Nat → WriteRows} (hk : Sound K fk) (hv : Sound V fv)
-    (dm r k : Nat) (vs : List Val) (hvs : vs ≠ []) (hall : ∀ v ∈ vs, isSome v = false) :
-    wrMap (leavesN K) (leavesN V) (fk (dm + 1 + 1)) (fv (dm + 1 + 1)) r k dm (vs.map unopt) =
-      joinSegs (leavesN (mapNode K V)) (vs.map fun _ => absentN (mapNode K V) r dm) := by
-  simp only [wrMap, isEmpty_false_of_ne (map_ne_nil hvs), Bool.false_eq_true, if_false, List.map_map,
-    leavesN_mapNode]
-  congr 1
-  apply map_congr_mem
-  intro v hv'
-  have := hall v hv'
-  have hu : unopt v = .none := by cases v <;> simp [isSome] at this <;> rfl
-  simp only [Function.comp, hu, elemsM, fieldsOf, hd, elemsS]
-  rw [(hk (dm + 2) r (k + 1)).2 dm (by omega), (hv (dm + 2) r (k + 1)).2 dm (by omega), absentN_mapNode]
+    simp only [wrOptional, wrOptionalWith, List.isEmpty_nil, if_true, absentN]
+    exact (h (dm + 1) r k).2.1 d (by omega)
+  · intro d hd' c
+    generalize hvs : List.replicate (c + 1) Val.none = vs
+    have hne : vs ≠ [] := by rw [← hvs]; exact replicate_succ_ne_nil c _
+    have hlen : vs.length = c + 1 := by rw [← hvs]; simp
+    have hall : ∀ v ∈ vs, isSome v = false := by
+      intro v hv
+      rw [← hvs] at hv
+      rw [(List.mem_replicate.mp hv).2]; rfl
+    have hidx := nullIndex_spec isSome vs
+    rcases scan_spec (nullIndex isSome vs) vs.length hidx.2.1 vs.length 0 (Nat.zero_le _) (by omega)
+      with ⟨runs, hruns, hchain, _⟩
+    have hbits : ∀ p, p < vs.length → bitAt (nullIndex isSome vs) p = false := by
+      intro p hp
+      rw [hidx.2.2 p, List.getElem?_eq_getElem hp]
+      exact hall _ (List.getElem_mem hp)
+    have hw := chain_write_zeros (leavesN n) (f (dm + 1) r k) (absentN n r d) d
+      (fun c => (h (dm + 1) r k).2.2 d (by omega) c) (absentN_length n r d) vs hall
+      (nullIndex isSome vs) hbits runs 0 vs.length hchain (Nat.le_refl _)
+    simp only [wrOptional, wrOptionalWith, isEmpty_false_of_ne hne, Bool.false_eq_true, if_false, nullRuns, hruns]
+    rw [hw, hlen]
+    simp [leavesN, absentN]
 
 theorem wrOptMap_sound {K V : Node} {fk fv : Nat → WriteRows} (hk : Sound K fk) (hv : Sound V fv) :
     Sound (.opt (mapNode K V)) (fun dm => wrOptional (leavesN K + leavesN V)
       (wrMap (leavesN K) (leavesN V) (fk (dm + 2)) (fv (dm + 2)))) := by
-  have h := wrOptional_sound (wrMap_sound hk hv) (fun dm r k vs hvs hall => wrMap_null_runs hk hv dm r k vs hvs hall)
+  have h := wrOptional_sound (wrMap_sound hk hv)
   intro dm r k
   have h' := h dm r k
   rw [leavesN_mapNode] at h'
+  exact h'
+
+/-- the writer of a struct node from the writer of its fields (`writeRowsFuncOfStruct`) -/
+theorem struct_sound {fs : Fields} {g : Nat → Nat → Nat → Nat → List (List Val) → Cols} (h : SoundF fs g) :
+    Sound (.group fs) (fun dm r k d vs => g dm r k d (vs.map fieldsOf)) := by
+  intro dm r k
+  have h' := h dm r k
+  refine ⟨?_, ?_, ?_⟩
+  · intro vs hvs
+    simp only [leavesN]
+    rw [h'.1 (vs.map fieldsOf) (map_ne_nil hvs), List.map_map]
+    congr 1
+    apply map_congr_mem
+    intro v _
+    simp [shredN_group]
+  · intro d hd
+    simp only [absentN, List.map_nil]
+    exact h'.2.1 d hd
+  · intro d hd c
+    simp only [leavesN, absentN, List.map_replicate, fieldsOf]
+    exact h'.2.2 d hd c
+
+/-- A non-pointer struct with the `optional` tag: the bitmap branch over the struct writer; the zero
+struct is null, and the rows of a null run reach every field writer as zero values. -/
+theorem wrOptStruct_sound {fs : Fields} {g : Nat → Nat → Nat → Nat → List (List Val) → Cols}
+    (h : SoundF fs g) :
+    Sound (.opt (.group fs))
+      (fun dm => wrOptional (leavesF fs) (fun r k d vs => g (dm + 1) r k d (vs.map fieldsOf))) := by
+  have h1 := wrOptional_sound (struct_sound h)
+  intro dm r k
+  have h' := h1 dm r k
+  simp only [leavesN] at h'
   exact h'
 
 mutual
@@ -903,22 +1017,12 @@ theorem tyN_sound (n : TNode) : Sound (erase n) (tyN n) := by
     simpa only [tyN, erase] using h
   | optLeaf =>
     intro dm r k
-    have h := wrOptionalLeaf_sound dm r k
-    simpa only [tyN, erase] using h
+    have h := wrOptional_sound wrLeaf_sound dm r k
+    simpa only [tyN, erase, leavesN] using h
   | struct fs =>
     intro dm r k
-    have h := tyF_sound fs dm r k
-    refine ⟨?_, ?_⟩
-    · intro vs hvs
-      simp only [tyN, erase, leavesN]
-      rw [h.1 (vs.map fieldsOf) (map_ne_nil hvs), List.map_map]
-      congr 1
-      apply map_congr_mem
-      intro v _
-      simp [shredN_group]
-    · intro d hd
-      simp only [tyN, erase, absentN, List.map_nil]
-      exact h.2 d hd
+    have h := struct_sound (tyF_sound fs) dm r k
+    simpa only [tyN, erase] using h
   | ptr n =>
     intro dm r k
     have h := wrPointer_sound (tyN_sound n) dm r k
@@ -943,11 +1047,15 @@ theorem tyN_sound (n : TNode) : Sound (erase n) (tyN n) := by
     intro dm r k
     have h := wrOptMap_sound (tyN_sound kn) (tyN_sound vn) dm r k
     simpa only [tyN, erase] using h
+  | optStruct fs =>
+    intro dm r k
+    have h := wrOptStruct_sound (tyF_sound fs) dm r k
+    simpa only [tyN, erase] using h
 theorem tyF_sound (fs : TFields) : SoundF (eraseF fs) (tyF fs) := by
   cases fs with
   | nil =>
     intro dm r k
-    refine ⟨?_, ?_⟩
+    refine ⟨?_, ?_, ?_⟩
     · intro vss _
       simp only [tyF, eraseF, leavesF]
       have : vss.map (shredF .nil r k dm) = vss.map (fun _ => ([] : Cols)) :=
@@ -955,11 +1063,14 @@ theorem tyF_sound (fs : TFields) : SoundF (eraseF fs) (tyF fs) := by
       rw [this, joinSegs_zero]
     · intro d _
       simp [tyF, eraseF, absentF]
+    · intro d _ c
+      simp only [tyF, eraseF, leavesF, absentF]
+      exact (joinSegs_replicate_nil (c + 1)).symm
   | cons n fs =>
     intro dm r k
     have hn := tyN_sound n dm r k
     have hf := tyF_sound fs dm r k
-    refine ⟨?_, ?_⟩
+    refine ⟨?_, ?_, ?_⟩
     · intro vss hvss
       simp only [tyF, eraseF, leavesF]
       rw [hn.1 (vss.map hd) (map_ne_nil hvss), hf.1 (vss.map List.tail) (map_ne_nil hvss),
@@ -973,7 +1084,11 @@ theorem tyF_sound (fs : TFields) : SoundF (eraseF fs) (tyF fs) := by
         (fun vs _ => shredF_length (eraseF fs) r k dm vs.tail)).symm
     · intro d hd'
       simp only [tyF, eraseF, absentF, List.map_nil]
-      rw [hn.2 d hd', hf.2 d hd']
+      rw [hn.2.1 d hd', hf.2.1 d hd']
+    · intro d hd' c
+      simp only [tyF, eraseF, leavesF, absentF, List.map_replicate, hd, List.tail_nil]
+      rw [hn.2.2 d hd' c, hf.2.2 d hd' c]
+      exact (joinSegs_replicate_append (absentN_length (erase n) r d) (absentF_length (eraseF fs) r d) (c + 1)).symm
 end
 
 /-- The typed write path and the reflection path produce the same column streams: for every Go
